@@ -227,7 +227,7 @@ def check_schemas(rng, n):
             params = [a.arg for a in st.args.args]
             ok_nontrivial = 0
             for _ in range(n):
-                if set(params) & {'packet', 'a', 'o', 'c'}:
+                if set(params) & {'packet', 'a', 'o', 'c', 'cc'}:
                     args = _criteria_args(rng, params)
                     tried += 1
                     try:
@@ -287,6 +287,15 @@ def _criteria_args(rng, params):
             out.append(tree('and', rng.randint(0, 3)))
         elif p == 'o':
             out.append(tree('or', rng.randint(0, 3)))
+        elif p == 'cc':
+            # a context calibrator: a list of Comparison-like criteria
+            class Comparison(NS):
+                pass
+            out.append(NS(match_criteria=[Comparison(referenced_parameter=rng.choice('ABCD'), operator=rng.choice(['==', '<', 'geq']),
+                                                     required_value=str(rng.randint(0, 2)), use_calibrated_value=rng.choice([True, False]))
+                                          for _ in range(rng.randint(0, 3))]))
+        elif p == 'cur':
+            out.append(rng.choice([None, 1, 2.5]))
         else:
             out.append(cond())
     return out
